@@ -466,6 +466,9 @@ func TestC19(t *testing.T) {
 		intG := rapid.OneOf(rapid.SampledFrom(c19Ints), rapid.Uint64())
 		nanoG := rapid.OneOf(rapid.SampledFrom(c19Nanos), rapid.Int64(), rapid.Int64Range(0, 4e18))
 		rapid.Check(t, func(rt *rapid.T) {
+			if pastSoftDeadline(st) {
+				return
+			}
 			c := c19Case{
 				SubjectLen: lenG.Draw(rt, "subjectLen"), SubjectKind: rapid.SampledFrom([]string{"zeros", "ff", "ascii", "ascii", "nul", "badutf8", "rand"}).Draw(rt, "subjectKind"),
 				DataLen: lenG.Draw(rt, "dataLen"), DataKind: rapid.SampledFrom([]string{"zeros", "ff", "ascii", "rand"}).Draw(rt, "dataKind"),
